@@ -32,6 +32,8 @@ Section Conc.
     else if bytes_eqb op (s2b "conc_shared") then Some (op_conc_shared args)
     (* one shared Signer, n goroutines: every signed copy must verify *)
     else if bytes_eqb op (s2b "conc_signer") then Some (SL [SZ 1])
+    (* one shared bundle signature.Signer (mock algorithm), n goroutines calling UpdateSignatures: same section every time *)
+    else if bytes_eqb op (s2b "conc_bsig_signer") then Some (SL [SZ 1; SZ 1])
     (* first library calls of a fresh process made from 16 goroutines at once: same answers, no race *)
     else if bytes_eqb op (s2b "conc_first_use") then Some (SL [sym "same"])
     else None.
